@@ -17,6 +17,7 @@ PID = 'C15'
 def run(tier, seed, replay=None):
     t0_ = time.time()
     V = C.Verdict(PID, tier, seed)
+    O.FAR_PROB = 0.08     # some objects live far from the origin on compressed knot vectors
     l0 = C.l0_check(PID, thorough=(tier == 'thorough'))
     build_pyx.load_splipy()
     import numpy as np
